@@ -101,10 +101,39 @@ def coq_make(targets, timeout=3000, jobs=NCPU):
 HYGIENE_RE = re.compile(r"\b(Admitted|admit|Axiom|Axioms|Parameter|Parameters|Conjecture|Conjectures|Admit Obligations|Unset Guard Checking|Unset Positivity Checking|Unset Universe Checking|bypass_check|type-in-type|impredicative-set)\b")
 
 
-def coq_hygiene():
-    """Forbidden vernacular anywhere under coq/ (comments stripped)."""
+def coq_deps(rel_v):
+    """Transitive .v dependencies (inside coq/) of a file, from coq/.Makefile.d."""
+    dep = {}
+    mf = os.path.join(COQ, ".Makefile.d")
+    if os.path.exists(mf):
+        for line in open(mf):
+            if ":" not in line:
+                continue
+            lhs, rhs = line.split(":", 1)
+            tg = [t for t in lhs.split() if t.endswith(".vo")]
+            if not tg:
+                continue
+            dep[tg[0][:-1]] = [r[:-1] for r in rhs.split() if r.endswith(".vo")]
+    seen, todo = set(), [rel_v]
+    while todo:
+        x = todo.pop()
+        if x in seen:
+            continue
+        seen.add(x)
+        todo += dep.get(x, [])
+    return sorted(seen)
+
+
+def coq_hygiene(files=None):
+    """Forbidden vernacular in the given files (default: everything under coq/), comments stripped."""
     bad = []
-    for p in glob.glob(os.path.join(COQ, "**", "*.v"), recursive=True):
+    if files is None:
+        files = glob.glob(os.path.join(COQ, "**", "*.v"), recursive=True)
+    else:
+        files = [os.path.join(COQ, f) for f in files]
+    for p in files:
+        if not os.path.exists(p):
+            continue
         src = open(p, errors="replace").read()
         src = strip_coq_comments(src)
         for i, line in enumerate(src.split("\n"), 1):
@@ -155,7 +184,9 @@ def coq_check_props(pid, extra_targets=(), timeout=3000):
             pass
     ok, log = coq_make([rel + "o"] + list(extra_targets), timeout=timeout)
     res["log"] = log
-    hyg = coq_hygiene()
+    closure = coq_deps(rel)
+    res["files"] = closure
+    hyg = coq_hygiene(closure)
     if hyg:
         res["log"] += "\nHYGIENE: " + "\n".join(hyg)
     if ok and os.path.exists(path + "o"):
@@ -175,7 +206,9 @@ def coq_check_props(pid, extra_targets=(), timeout=3000):
         res["print_assumptions"] = n_pa
         if n_pa < len(thms):
             res["log"] += "\nMISSING Print Assumptions for some theorem in " + rel
-        res["ok"] = (not hyg) and (not res["foreign_axioms"]) and n_pa >= len(thms)
+        if not thms:
+            res["log"] += "\nNO THEOREMS in " + rel
+        res["ok"] = (not hyg) and (not res["foreign_axioms"]) and n_pa >= len(thms) and len(thms) > 0
         res["discharged"] = res["obligations"] if res["ok"] else 0
     else:
         # which theorem broke?  'File "./Props/Properties_C14.v", line 12, characters ...'
@@ -369,6 +402,10 @@ def known_findings(pid):
 # the check object
 # --------------------------------------------------------------------------------------------
 
+LIFETIME_KINDS = {"leak-object", "leak-block", "use-dead", "construct-over-live", "destroy-dead",
+                  "dealloc-size", "bad-free", "dealloc-null", "lifetime"}
+
+
 class Check:
     def __init__(self, pid, argv=None):
         self.pid = pid
@@ -406,6 +443,8 @@ class Check:
         self.trusted = []
         self.assumptions = []
         self.extra = {}
+        self.kind_filter = None      # callable(kind) -> bool: which oracle kinds belong to this property
+        self.ignored_oracle = 0
         self.checker_cmd = "make -C coq Props/Properties_%s.vo (coqc 8.16.1, full .vo build) + Print Assumptions" % pid
         os.makedirs(REPLAYS, exist_ok=True)
 
@@ -453,6 +492,9 @@ class Check:
         self.mismatches.append((cid, lines, desc))
 
     def oracle(self, kind, msg, cid, lines):
+        if self.kind_filter is not None and not self.kind_filter(kind):
+            self.ignored_oracle += 1
+            return
         self.oracle_fail.append((kind, msg, cid, lines))
 
     def compare(self, cases, impl, model, nontrivial=None):
@@ -563,6 +605,7 @@ class Check:
             "correspondence_mismatches": len(self.mismatches),
             "oracle_failures": len(self.oracle_fail),
             "known_findings_hit": known_hit,
+            "oracle_failures_belonging_to_other_properties": self.ignored_oracle,
             "broken": self.broken,
             "explanation": " ".join(self.notes),
         }
